@@ -115,6 +115,9 @@ def run(ctx):
     ctx.guard('E-iii', 'classification', check_classification, ctx, w)
     ctx.floor('E-iii', 300)
     ctx.guard('H-CUR', 'cursor', hrules.run_h, ctx, w, [LL, RG, UT])
+    ctx.rule('I-BOUND', 'a stepped index into the list of referenced offsets is bounded by the list before it is used (gaps at the end of a section)')
+    ctx.guard('I-BOUND', 'index reads', check_bound, ctx, w)
+    ctx.floor('I-BOUND', 2)
     ctx.guard('G-LIT', 'literals', literals.glit, ctx, w, [LL, RG])
     ctx.floor('G-LIT', 50)
 
@@ -412,6 +415,8 @@ def check_classification(ctx, w):
 
 
 MUTANTS = [
+    ('loclists-unbounded-index', LL, "                    next_offset = (all_offsets[offset_index]\n                                   if offset_index < len(all_offsets)\n                                   else cu_end_offset)",
+     "                    next_offset = all_offsets[offset_index]", 'I-BOUND'),
     ('get-addr-container-size', 'dwarf/dwarfinfo.py', "cu_addr_base + addr_index*cu.header.address_size)", "cu_addr_base + addr_index*self.structs.address_size)", 'G-OWNER'),
     ('get-addr-container-width', 'dwarf/dwarfinfo.py', "return struct_parse(cu.structs.the_Dwarf_target_addr, self.debug_addr_sec.stream,", "return struct_parse(self.structs.the_Dwarf_target_addr, self.debug_addr_sec.stream,", 'G-OWNER'),
     ('start-length-addr', 'dwarf/structs.py', "'DW_LLE_start_length'     : Struct('start_length', self.Dwarf_target_addr('start_address'), self.Dwarf_uleb128('length'), cld),",
@@ -431,3 +436,31 @@ MUTANTS = [
     ('startx-length-2x', LL, "    return LocationEntry(e.entry_offset, e.entry_length, start_offset, start_offset + e.length, e.loc_expr, True)", "    return LocationEntry(e.entry_offset, e.entry_length, start_offset, e.length, e.loc_expr, True)", 'G-SIG'),
     ('cld-u16', 'dwarf/structs.py', "PrefixedArray(self.Dwarf_uint8('loc_expr'), self.the_Dwarf_uleb128)", "PrefixedArray(self.Dwarf_uint8('loc_expr'), self.the_Dwarf_uint16)", 'L-CONF'),
 ]
+
+
+BOUND_SAMPLE = """
+def walk(all_offsets, end):
+    i = 0
+    offset = 0
+    while offset < end:
+        nxt = all_offsets[i]
+        if nxt == offset:
+            i += 1
+        offset = nxt
+"""
+
+
+def check_bound(ctx, w):
+    from sa import walks
+    hit = walks.unbounded_index_reads(ast.parse(BOUND_SAMPLE).body[0])
+    ctx.ob('I-BOUND', 'built-in sample', 'the rule fires on its positive example', [(l, i) for n, l, i in hit] == [('all_offsets', 'i')], got=hit)
+    n = 0
+    for f in w.model.library_funcs():
+        if not any(f.mod.endswith(m) for m in (LL, RG, UT)):
+            continue
+        n += 1
+        for node, lst, idx in walks.unbounded_index_reads(f.node):
+            ctx.ob('I-BOUND', f.construct, '%s[%s]' % (lst, idx), False, line=node.lineno, got=U(node),
+                   msg='the index is stepped inside the walk and nothing bounds it by len(%s) before this read: when the listed objects run out '
+                       'before the extent does (padding or a gap after the last list) the walk ends in IndexError instead of ending' % lst)
+    ctx.ob('I-BOUND', 'list modules', 'functions scanned for unbounded stepped index reads', n > 10, sample='%d functions' % n, got=n)
